@@ -49,21 +49,45 @@ def _atoms(i=0):
 
 
 # --------------------------------------------------------------------------- ensemble kinds
-def k_line_scan(shape, endpoint):
+def k_line_scan(shape, endpoint, v=0):
     from abtem.scan import LineScan
-    obj = LineScan(start=(0.25, 0.5), end=(0.25 + 0.75 * shape[0], 0.5), gpts=shape[0], endpoint=endpoint)
+    obj = LineScan(start=(0.25 + 0.5 * v, 0.5 - 0.25 * v), end=(0.25 + 0.5 * v + 0.75 * shape[0], 0.5 - 0.25 * v), gpts=shape[0], endpoint=endpoint)
     return obj, lambda o: [[(rnd(p[0]), rnd(p[1])) for p in o.get_positions()]]
 
 
-def k_custom_scan(shape):
+def k_line_scan_moved(shape, endpoint):
+    """a LineScan that has been partitioned once, then pointed somewhere else: the end moves to another point at the SAME distance
+    from the start (the scalar extent, gpts and sampling do not change), and the scan is partitioned again"""
+    obj, axes = k_line_scan(shape, endpoint)
+
+    def edit(o):
+        L = float(np.hypot(o.end[0] - o.start[0], o.end[1] - o.start[1]))
+        o.end = (o.start[0] + 0.6 * L, o.start[1] + 0.8 * L)
+        o.gpts = shape[0]
+    return obj, axes, (lambda o: True), edit
+
+
+def k_grid_scan_moved(shape, endpoint):
+    """a GridScan partitioned once, then translated as a whole (same extent, gpts, sampling), then partitioned again"""
+    obj, axes = k_grid_scan(shape, endpoint)
+
+    def edit(o):
+        s, e = tuple(o.start), tuple(o.end)
+        o.start = (s[0] + 0.375, s[1] - 0.25)
+        o.end = (e[0] + 0.375, e[1] - 0.25)
+        o.gpts = tuple(shape)
+    return obj, axes, (lambda o: True), edit
+
+
+def k_custom_scan(shape, v=0):
     from abtem.scan import CustomScan
-    pos = np.array([[0.3 * i, 1.0 - 0.2 * i * i] for i in range(shape[0])])
+    pos = np.array([[0.3 * i + 0.125 * v, 1.0 - 0.2 * i * i - 0.25 * v] for i in range(shape[0])])
     return CustomScan(pos), lambda o: [[(rnd(p[0]), rnd(p[1])) for p in o.get_positions()]]
 
 
-def k_grid_scan(shape, endpoint):
+def k_grid_scan(shape, endpoint, v=0):
     from abtem.scan import GridScan
-    obj = GridScan(start=(0.0, 0.5), end=(1.5, 3.0), gpts=tuple(shape), endpoint=endpoint)
+    obj = GridScan(start=(0.0 + 0.25 * v, 0.5 + 0.5 * v), end=(1.5 + 0.25 * v, 3.0 + 0.5 * v), gpts=tuple(shape), endpoint=endpoint)
 
     def axes(o):
         p = np.asarray(o.get_positions(), dtype=float)
@@ -82,34 +106,34 @@ def _dist_ident(d):
     return [(rnd(v), rnd(w)) for v, w in zip(np.asarray(d.values).ravel(), np.asarray(d.weights).ravel())]
 
 
-def k_aperture(shape):
+def k_aperture(shape, v=0):
     import abtem
-    obj = abtem.Aperture(semiangle_cutoff=_dist(shape[0], 0), energy=100e3)
+    obj = abtem.Aperture(semiangle_cutoff=_dist(shape[0], 0 + 5 * v), energy=100e3)
     return obj, lambda o: [_dist_ident(o.semiangle_cutoff)]
 
 
-def k_ctf2(shape):
+def k_ctf2(shape, v=0):
     import abtem
-    obj = abtem.CTF(defocus=_dist(shape[0], 1), Cs=_dist(shape[1], 2, weights=False), energy=100e3)
+    obj = abtem.CTF(defocus=_dist(shape[0], 1 + 5 * v), Cs=_dist(shape[1], 2 + 3 * v, weights=False), energy=100e3)
     return obj, lambda o: [_dist_ident(o.defocus), _dist_ident(o.Cs)]
 
 
-def k_frozen_phonons(shape):
+def k_frozen_phonons(shape, v=0):
     import abtem
-    seeds = tuple([1000003, 17, 65537, 3, 424242, 5, 99991, 8][i % 8] + 10 * (i // 8) for i in range(shape[0]))
+    seeds = tuple([1000003, 17, 65537, 3, 424242, 5, 99991, 8][i % 8] + 10 * (i // 8) + 1000 * v for i in range(shape[0]))
     obj = abtem.FrozenPhonons(_atoms(), num_configs=shape[0], sigmas=0.1, seed=seeds)
     return obj, lambda o: [[int(s) for s in o.seed]]
 
 
-def k_frozen_phonons_generated(shape):
+def k_frozen_phonons_generated(shape, v=0):
     import abtem
-    obj = abtem.FrozenPhonons(_atoms(), num_configs=shape[0], sigmas=0.1, seed=3)
+    obj = abtem.FrozenPhonons(_atoms(), num_configs=shape[0], sigmas=0.1, seed=3 + v)
     return obj, lambda o: [[int(s) for s in o.seed]]
 
 
-def k_atoms_ensemble(shape):
+def k_atoms_ensemble(shape, v=0):
     import abtem
-    obj = abtem.AtomsEnsemble([_atoms(i) for i in range(shape[0])])
+    obj = abtem.AtomsEnsemble([_atoms(i + 11 * v) for i in range(shape[0])])
 
     def axes(o):
         tr = o.trajectory
@@ -173,7 +197,8 @@ def _array_obj(shape, axis_kinds, lazy, cls="Waves"):
 
 
 KINDS1 = {
-    "line_scan": lambda sh: k_line_scan(sh, False), "line_scan_endpoint": lambda sh: k_line_scan(sh, True),
+    "line_scan": lambda sh, v=0: k_line_scan(sh, False, v), "line_scan_endpoint": lambda sh, v=0: k_line_scan(sh, True, v),
+    "line_scan_moved_after_partition": lambda sh: k_line_scan_moved(sh, False), "line_scan_endpoint_moved_after_partition": lambda sh: k_line_scan_moved(sh, True),
     "custom_scan": k_custom_scan, "aperture_distribution": k_aperture, "frozen_phonons": k_frozen_phonons, "frozen_phonons_generated_seeds": k_frozen_phonons_generated,
     "atoms_ensemble": k_atoms_ensemble,
     "waves_ordinal": lambda sh: _array_obj(sh, ["ordinal"], False), "waves_ordinal_lazy": lambda sh: _array_obj(sh, ["ordinal"], True),
@@ -181,8 +206,9 @@ KINDS1 = {
     "images_param": lambda sh: _array_obj(sh, ["param"], False, "Images"),
 }
 KINDS2 = {
-    "grid_scan": lambda sh: k_grid_scan(sh, False), "grid_scan_endpoint": lambda sh: k_grid_scan(sh, (True, False)),
-    "grid_scan_endpoint2": lambda sh: k_grid_scan(sh, True), "ctf_two_distributions": k_ctf2,
+    "grid_scan": lambda sh, v=0: k_grid_scan(sh, False, v), "grid_scan_endpoint": lambda sh, v=0: k_grid_scan(sh, (True, False), v),
+    "grid_scan_endpoint2": lambda sh, v=0: k_grid_scan(sh, True, v), "grid_scan_moved_after_partition": lambda sh: k_grid_scan_moved(sh, False),
+    "ctf_two_distributions": k_ctf2,
     "waves_fp_scan": lambda sh: _array_obj(sh, ["fp", "scan"], False), "waves_ordinal_positions_lazy": lambda sh: _array_obj(sh, ["ordinal", "positions"], True),
     "images_scan_scan": lambda sh: _array_obj(sh, ["scan", "scan"], True, "Images"),
 }
@@ -198,13 +224,37 @@ def observe(kind, shape, chunks):
           "eager": [], "lazy": [], "product_ok": True}
     try:
         ch = tuple(tuple(c) for c in chunks)
+        if len(made) > 3:
+            # objects have histories: partition once (both routes), edit the object through its public setters, partition again
+            list(obj.generate_blocks(ch))
+            obj.ensemble_blocks(ch).compute(scheduler="synchronous")
+            made[3](obj)
         ev["members"] = [[it(v) for v in ax] for ax in axes_fn(obj)]
         for idx, slics, blk in obj.generate_blocks(ch):
             b = blk.item() if isinstance(blk, np.ndarray) else blk
             ev["eager"].append({"idx": [int(i) + 1 for i in idx], "axes": [[it(v) for v in ax] for ax in axes_fn(b)],
                                 "slices": [[int(s.start), int(s.stop)] for s in slics]})
             ev["product_ok"] = ev["product_ok"] and prod_fn(b)
-        arr = obj.ensemble_blocks(ch).compute(scheduler="synchronous")
+        # the lazy blocks are computed in ONE dask graph together with those of a sibling ensemble of the same kind, shape and chunking
+        # but other parameters (other start point, other seeds, other values): every ensemble gets its own blocks back
+        import dask
+        import inspect
+        maker = (KINDS1 if len(shape) == 1 else KINDS2)[kind]
+        sib = maker(list(shape), 1)[0] if "v" in inspect.signature(maker).parameters else None
+        if sib is not None:
+            arr, arr_sib = dask.compute(obj.ensemble_blocks(ch), sib.ensemble_blocks(ch), scheduler="synchronous")
+            ev["sibling"] = {"kind": kind, "shape": list(shape), "chunks": [list(c) for c in chunks], "raised": False, "joint_sibling": True,
+                             "members": [[it(v) for v in ax] for ax in axes_fn(sib)], "eager": [], "lazy": [], "product_ok": True}
+            for idx, slics, blk in sib.generate_blocks(ch):
+                b = blk.item() if isinstance(blk, np.ndarray) else blk
+                ev["sibling"]["eager"].append({"idx": [int(i) + 1 for i in idx], "axes": [[it(v) for v in ax] for ax in axes_fn(b)],
+                                               "slices": [[int(s.start), int(s.stop)] for s in slics]})
+            for idx in np.ndindex(arr_sib.shape):
+                b = arr_sib[idx]
+                b = b.item() if isinstance(b, np.ndarray) else b
+                ev["sibling"]["lazy"].append({"idx": [int(i) + 1 for i in idx], "axes": [[it(v) for v in ax] for ax in axes_fn(b)], "slices": []})
+        else:
+            arr = obj.ensemble_blocks(ch).compute(scheduler="synchronous")
         for idx in np.ndindex(arr.shape):
             b = arr[idx]
             b = b.item() if isinstance(b, np.ndarray) else b
@@ -241,11 +291,18 @@ def tags_for(ev, clauses):
 
 
 def judge(ctx: Ctx, evs):
-    res = ctx.validate("EnsembleTrace", [[e] for e in evs], "EnsembleTrace.cfg")
-    for e, (ok, bad) in zip(evs, res):
+    flat = []
+    for e in evs:
+        flat.append(({k: v for k, v in e.items() if k != "sibling"}, e))
+        if "sibling" in e:
+            flat.append((e["sibling"], e))
+    res = ctx.validate("EnsembleTrace", [[f] for f, _ in flat], "EnsembleTrace.cfg")
+    for (f, e), (ok, bad) in zip(flat, res):
         if not ok:
             tg = tags_for(e, bad[0][1])
-            ctx.report(tg, {"event": e}, f"{e['kind']} shape={e['shape']} chunks={e['chunks']}: {','.join(tg['clauses'])} {e.get('exc', '')}")
+            if f.get("joint_sibling"):
+                tg["joint_sibling"] = True
+            ctx.report(tg, {"event": {k: v for k, v in e.items() if k != "sibling"}}, f"{e['kind']} shape={e['shape']} chunks={e['chunks']}: {','.join(tg['clauses'])} {e.get('exc', '')}")
 
 
 def self_test(ctx: Ctx):
